@@ -49,8 +49,8 @@ const char* kKindName[] = {"lru", "mru", "fifo", "lfu", "lfuda", "rr", "tlru", "
 
 struct GElem
 {
-    int k{0};
-    int ttl{0};
+    int       k{0};
+    long long ttl{0};
 };
 struct GOp
 {
@@ -58,7 +58,7 @@ struct GOp
     bool               splice{false};
     int                k{0};
     int                allow{3};
-    int                ttl{0};
+    long long          ttl{0};
     bool               peek{false};
     int                flavour{0};
     std::vector<GElem> elems;
@@ -79,7 +79,7 @@ struct GCase
     int              cap{2};
     int              extra{1}; // universe = cap + extra
     int              mlf_idx{0};
-    int              ttl{5};
+    long long        ttl{5};
     int              tick{5};
     int              ratio_idx{0};
     int              seed{1};
@@ -147,7 +147,7 @@ struct Profile
 {
     std::vector<int> kinds;
     int              w[O_COUNT]; // operation weights
-    std::vector<std::pair<std::size_t, int>> ttls;   // weighted TTL choices (ms)
+    std::vector<std::pair<std::size_t, long long>> ttls;   // weighted TTL choices (ms)
     std::vector<std::pair<std::size_t, int>> caps;   // weighted capacities
     int              w_peek{50};    // percent of lookups that peek
     int              w_scan2{30};   // percent of explicit scans that also probe expired keys
@@ -167,7 +167,7 @@ Profile make_profile(const std::string& name)
     int general[] = {34, 6, 10, 3, 10, 3, 4, 3, 2, 2, 1, 1, 6, 5, 2, 0};
     std::memcpy(p.w, general, sizeof general);
     p.w[O_REP] = 1;
-    p.ttls = {{2, 0}, {6, 1}, {8, 2}, {8, 3}, {10, 5}, {6, 8}, {6, 50}, {4, 1000}};
+    p.ttls = {{2, 0}, {6, 1}, {8, 2}, {8, 3}, {10, 5}, {6, 8}, {6, 50}, {4, 1000}, {1, 3600000}, {1, 5000000000ll}}; // the last two: 1 h, and > 2^32 ms
     p.caps = {{12, 1}, {20, 2}, {20, 3}, {14, 4}, {6, 5}, {4, 6}, {3, 7}, {3, 8}, {1, 16}, {1, 17}, {1, 33}, {1, 64}, {1, 100}};
     if (name == "general")
     {
@@ -303,7 +303,7 @@ rc::Gen<GOp> gen_op(const Profile& p)
     for (int i = 0; i < O_COUNT; ++i)
         if (p.w[i] > 0)
             codes.emplace_back(static_cast<std::size_t>(p.w[i]) * (i == O_REP ? 1 : 20), i);
-    auto ttl   = weighted<int>(p.ttls);
+    auto ttl   = weighted<long long>(p.ttls);
     auto elem  = rc::gen::build<GElem>(rc::gen::set(&GElem::k, uni_int(0, 47)), rc::gen::set(&GElem::ttl, ttl));
     auto small = rc::gen::resize(8, rc::gen::container<std::vector<GElem>>(elem));
     auto belem = rc::gen::build<GElem>(rc::gen::set(&GElem::k, uni_int(0, 319)), rc::gen::set(&GElem::ttl, ttl));
@@ -344,7 +344,7 @@ rc::Gen<GCase> gen_case(const Profile& p, const std::vector<int>& kinds)
         rc::gen::set(&GCase::cap, weighted<int>(p.caps)),
         rc::gen::set(&GCase::extra, weighted<int>({{3, 1}, {4, 2}, {3, 3}})),
         rc::gen::set(&GCase::mlf_idx, weighted<int>({{10, 0}, {1, 1}, {1, 2}, {2, 3}, {2, 4}, {1, 5}, {1, 6}, {1, 7}})),
-        rc::gen::set(&GCase::ttl, weighted<int>(p.ttls)),
+        rc::gen::set(&GCase::ttl, weighted<long long>(p.ttls)),
         rc::gen::set(&GCase::tick, weighted<int>(ticks)),
         rc::gen::set(&GCase::ratio_idx, weighted<int>({{4, 0}, {1, 1}, {1, 2}, {2, 3}, {2, 4}, {1, 5}})),
         rc::gen::set(&GCase::seed, uni_int(1, 65535)),
